@@ -28,7 +28,7 @@ type gate struct {
 }
 
 // successGates returns the edges on which call site a is known to have succeeded.
-func (u *Unit) successGates(a *flow.Site, mode Success) ([]gate, string) {
+func (u *Unit) successGates(a *flow.Site, mode Success, assume *flow.F) ([]gate, string) {
 	if mode == Reached {
 		return []gate{{site: a}}, ""
 	}
@@ -102,6 +102,9 @@ func (u *Unit) successGates(a *flow.Site, mode Success) ([]gate, string) {
 		}
 		if !mentions {
 			continue
+		}
+		if assume != nil {
+			f = flow.And(f, assume)
 		}
 		if r := flow.Implies(f, want); !r.Holds || r.Undecided != "" {
 			continue
@@ -299,14 +302,31 @@ func (r *Report) Order(rule string, u *Unit, b M, as []M, o OrderOpts) {
 	var gates []gate
 	var why []string
 	na := 0
+	var assume *flow.F
+	if o.Assume != "" {
+		assume = u.W.Parse(o.Assume)
+	}
 	for _, am := range as {
+		if am.kind == edgeKind {
+			want := u.W.Parse(am.term)
+			for _, b := range u.G.Blocks {
+				if b.EdgeCond == nil || !b.Reachable() {
+					continue
+				}
+				if res := flow.Implies(u.edgeFormula(b), want); res.Holds && res.Undecided == "" {
+					gates = append(gates, gate{edge: b})
+					na++
+				}
+			}
+			continue
+		}
 		for _, a := range u.Match(am) {
 			na++
 			mode := o.Success
 			if am.succ != nil {
 				mode = *am.succ
 			}
-			g, msg := u.successGates(a, mode)
+			g, msg := u.successGates(a, mode, assume)
 			if msg != "" {
 				why = append(why, fmt.Sprintf("%s at %s: %s", am.Desc(), u.Pos(a.Pos), msg))
 			}
@@ -499,7 +519,7 @@ func (r *Report) Follow(rule string, u *Unit, a M, bs []M, o FollowOpts) {
 		}
 		var starts []start
 		if o.FromSuccess != Reached {
-			gs, msg := u.successGates(asite, o.FromSuccess)
+			gs, msg := u.successGates(asite, o.FromSuccess, nil)
 			if msg != "" {
 				r.Unknown(rule, construct, u.Pos(asite.Pos), msg)
 				continue
